@@ -1586,7 +1586,9 @@ impl Melda {
             #[cfg(not(melda_verif_sched))]
             let mut c_r: std::sync::MutexGuard<'_, HashMap<String, Map<String, Value>>> =
                 c.lock().unwrap();
-            let root = c_r.get(start).expect("root_object_not_found");
+            let root = c_r
+                .get(start)
+                .ok_or_else(|| anyhow!("root_object_not_found"))?;
             let root = Value::from(root.clone());
             let result = unflatten(&mut c_r, &root)
                 .unwrap()
